@@ -2,6 +2,8 @@
 import re
 from .model import Instr, TRAIT_SHORT, FALLIBLE_NAME, INFALLIBLE_NAME, NO_BARE, is_fallible_name, base_name
 
+KNOWN_NAMES = set(FALLIBLE_NAME) | set(INFALLIBLE_NAME) | {"ghost", "ghost_owned", "ghost_ref", "ghosts", "ghosts_owned", "ghosts_ref", "child", "children", "child_parents", "parent",
+                                                          "where_clause", "literal", "pattern", "type_hint", "as_type", "repeat", "skip_repeat", "stop_repeat", "allow_unknown"}
 GHOST_SHORT = {"ghost": ["ghost_owned", "ghost_ref"], "ghosts": ["ghosts_owned", "ghosts_ref"]}
 
 
@@ -14,6 +16,10 @@ def respell(item, g, mode):
         cur = None
         for ins in lst:
             if ins.kind == "foreign":
+                cur = None
+                continue
+            if ins.kind == "raw" and ins.name not in KNOWN_NAMES:
+                # a name o2o does not know has no "bare form": written bare it is somebody else's attribute
                 cur = None
                 continue
             if mode == "bare":
